@@ -14,7 +14,12 @@ Outcomes == {"value", "error"}             \* the only acceptable outcomes
 \* bytes a call may allocate: a small multiple of the input size plus a constant
 \* (getters, printers and re-encoders of the returned object run inside the call)
 \* (TLC's integers are 32 bits wide: beyond 400 000 input bytes the budget is the cap the harness reports at)
+\* The quantity reported is the cumulative number of bytes allocated during the call (a measure of work as much as of memory);
+\* what the printing of the returned object allocates is reported apart (print_alloc): the property requires printing not
+\* to panic and puts the resource bound on the entry points themselves - String() builds its text by repeated concatenation
+\* and allocates 32 MB for a splice_insert of 255 components while holding 25 KB.
 Budget(len) == IF len > 400000 THEN 2000000000 ELSE 2097152 + (4096 * len)
+PrintBudget(len) == IF len > 400000 THEN 2000000000 ELSE 268435456 + (4096 * len)
 \* bytes the stack of the calling goroutine may grow by: the depth of calls must not follow the input (a frame per
 \* input byte or per packet makes the Go runtime end the process once the stack passes its limit)
 StackBudget(len) == IF len > 100000000 THEN 2000000000 ELSE 1048576 + (16 * len)
@@ -59,6 +64,7 @@ Judge(e) ==
   ELSE IF e.kind = "packet" /\ e.len # 188 THEN "harness-bad-input"
   ELSE IF ReadOnly(e.op) /\ ~e.input_same THEN "read-only-operation-modified-its-input"
   ELSE IF e.alloc > Budget(e.len) THEN "allocation-beyond-budget"
+  ELSE IF e.print_alloc > PrintBudget(e.len) THEN "allocation-while-printing-beyond-budget"
   ELSE IF e.stack > StackBudget(e.len) THEN "stack-beyond-budget"
   ELSE ""
 =============================================================================
